@@ -9,6 +9,7 @@ from __future__ import annotations
 
 import asyncio
 import random
+import struct
 import types
 
 from vlib import corpus, exa, gen_wire as gw, norm
@@ -68,7 +69,10 @@ def build_session(sk):
 
 def plan(tier, seed):
     n = 16 if tier == 'quick' else 64
-    return [{'shard': i, 'messages': 700 if tier == 'quick' else 6000} for i in range(n)]
+    out = [{'shard': i, 'messages': 700 if tier == 'quick' else 6000} for i in range(n)]
+    # the real daemon with a real helper process (one session kind per shard, rotating with the seed)
+    out += [{'shard': 900 + i, 'daemon': True, 'part': i, 'messages': 150 if tier == 'quick' else 800} for i in range(4 if tier == 'quick' else 13)]
+    return out
 
 
 def expected_from_intent(intent, recv_ap):
@@ -93,7 +97,168 @@ def nexthop_matches(observed: str, hops: tuple) -> bool:
     return observed.split(' ')[0].split(',')[0] == hops[0]
 
 
+def judge(res, sk, neg_aigp, intent, exp, text, wit, cls, kind, nbucket):
+    """one JSON event (text) against what the reference decoder says the UPDATE carried"""
+    try:
+        ev = norm.strict_loads(text)
+        obs = norm.update_observed(ev)
+    except Exception as e:  # noqa
+        key = 'C02/json-unparseable:eor' if intent['eor'] else f'C02/json-unparseable:{type(e).__name__}'
+        res.violation(key, f'JSON event does not parse: {type(e).__name__} {str(e)[:100]}', dict(wit, json=text[:600]), cls)
+        return
+    wit['observed'] = {k: obs[k] for k in ('announce', 'withdraw', 'eor', 'attrs')}
+    wit['expected'] = exp
+    bad = False
+    if obs['eor'] != exp['eor']:
+        res.violation(f'C02/eor-family:{exp["eor"]}', f'End-of-RIB reported for {obs["eor"]}, sent for {exp["eor"]}', wit, cls)
+        return
+    oa = [x[0] for x in obs['announce']]
+    ea = [x[0] for x in exp['announce']]
+    if oa != ea:
+        fam_obs = sorted({x[0] for x in oa})
+        fam_exp = sorted({x[0] for x in ea})
+        if fam_obs != fam_exp:
+            key = 'C02/announce-family'
+        elif len(oa) != len(ea):
+            key = 'C02/announce-count:' + ('dropped' if len(oa) < len(ea) else 'invented')
+        else:
+            diff = [i for i in range(len(oa)) if oa[i] != ea[i]]
+            fields = sorted({('prefix', 'path-id', 'labels', 'rd')[j - 1] for i in diff for j in range(1, 5) if oa[i][j] != ea[i][j]})
+            key = 'C02/announce-differs:' + '+'.join(fields) + f':safi{ea[diff[0]][0][1]}'
+        res.violation(key, 'announced set reported differs from what was sent', wit, cls)
+        bad = True
+    else:
+        for (n, nh), (_, hops) in zip(obs['announce'], exp['announce']):
+            if not nexthop_matches(nh, hops):
+                res.violation(f'C02/nexthop:safi{n[0][1]}:{"ll" if len(hops) > 1 else "single"}', f'next hop reported {nh!r}, sent {hops}', wit, cls)
+                bad = True
+                break
+    if obs['withdraw'] != exp['withdraw']:
+        key = 'C02/withdraw-count' if len(obs['withdraw']) != len(exp['withdraw']) else 'C02/withdraw-differs'
+        res.violation(key, 'withdrawn set reported differs from what was sent', wit, cls)
+        bad = True
+    oattr = dict(obs['attrs'])
+    oattr.pop('next_hop', None)
+    eattr = dict(exp['attrs'])
+    # AIGP (RFC 7311): reported with its value on a session configured for it, removed everywhere else
+    if bool(neg_aigp) != bool(sk.get('aigp')):
+        res.inconclusive.append(f'session {sk["name"]}: negotiated aigp={neg_aigp}')
+        return
+    if 'aigp' in oattr:
+        try:
+            oattr['aigp'] = int(str(oattr['aigp']), 0)
+        except ValueError:
+            pass
+    if (sk.get('aigp') or sk['ibgp']) and intent['attrs'] and 'aigp' in intent['attrs']:  # RFC 7311 3.1: enabled by default on IBGP
+        eattr['aigp'] = intent['attrs']['aigp']
+        res.count('aigp-compared:configured-session')
+    elif intent['attrs'] and 'aigp' in intent['attrs']:
+        res.count('aigp-compared:plain-session')
+    if not (intent['announce'] or intent['withdraw']):
+        eattr = oattr  # nothing to attach attributes to
+    if intent['withdraw'] and not intent['announce']:
+        eattr = oattr
+    if eattr.get('as_path') == [] and 'as_path' not in oattr:
+        oattr['as_path'] = []  # an empty AS_PATH is simply not rendered
+    for k in sorted(set(oattr) | set(eattr)):
+        if oattr.get(k) != eattr.get(k):
+            sub = ''
+            if k == 'as_path':
+                sub = ':asn4' if sk['asn4'] else ':as4-merge'
+            res.violation(f'C02/attribute:{k}{sub}', f'attribute {k} reported {oattr.get(k)!r}, sent {eattr.get(k)!r}', wit, cls)
+            bad = True
+            break
+    if not bad:
+        res.ok(cls, (sk['name'], kind, tuple(sorted(eattr)), nbucket))
+        for k in eattr:
+            res.ok('attr:' + k)
+        res.sample({'session': sk['name'], 'kind': kind, 'announce': [str(x) for x in exp['announce'][:2]], 'attrs': sorted(eattr)}, limit=3)
+
+
+
+def run_daemon(desc):
+    """the same oracle over the REAL daemon: python -m exabgp server, a forked helper reading the JSON events from its pipe,
+    the UPDATEs sent over TCP by a scripted peer.  Nothing of ExaBGP runs in this process besides the (separate) in-process
+    negotiation used to learn which families take a path identifier"""
+    from vlib import daemon
+
+    res = Result()
+    exa.quiet()
+    r = random.Random(desc['seed'] * 32452843 + desc['part'])
+    kinds = sessions()
+    sk = kinds[(desc['part'] + desc['seed']) % len(kinds)]
+    nb, neg = build_session(sk)
+    recv_ap = {(int(a), int(s)) for (a, s), v in neg.addpath._receive.items() if v}
+    s = {'asn4': sk['asn4'], 'addpath': recv_ap, 'ibgp': sk['ibgp'], 'enh': bool(neg.nexthop)}
+    las, pas = 65000, (65000 if sk['ibgp'] else 65001)
+    extra = 'api { processes [ sink ]; receive { parsed; update; } }'
+    text = 'process sink {\n    run @PY@ @DIR@/sink.py @DIR@/events;\n    encoder json;\n}\n' + corpus.all_families_text(las=las, pas=pas, asn4=True, addpath=sk['addpath'], adj_rib_in=True, extra=extra)
+    if sk.get('aigp'):
+        text = text.replace('capability {', 'capability { aigp enable;', 1)
+    compact = desc['part'] % 3 == 2
+    d = daemon.Daemon(text, env={'exabgp_api_compact': 'true'} if compact else None)
+    sent = []
+    try:
+        d.start()
+        peer = d.accept()
+        peer.establish(pas, peer_asn4=sk['asn4'])
+        for i in range(desc['messages']):
+            body, intent = gw.gen_update(r, s, families=FAMS, rich=0.6)
+            try:
+                rw.dec_update(body, rw.sess(asn4=sk['asn4'], addpath=recv_ap))
+            except rw.RefError:
+                continue
+            sent.append((body, intent))
+            peer.send(2, body)
+        marker = rw.enc_update_body(b'', rw.enc_attr(0x40, 1, b'\x00') + rw.enc_attr(0x40, 2, b'' if sk['ibgp'] else (bytes([2, 1]) + (struct.pack('!L', pas) if sk['asn4'] else struct.pack('!H', pas)))) + rw.enc_attr(0x40, 3, bytes([192, 0, 2, 1])) + (rw.enc_attr(0x40, 5, struct.pack('!L', 100)) if sk['ibgp'] else b''), (b'\x00\x00\x00\x01' if (1, 1) in recv_ap else b'') + bytes([32, 203, 0, 113, 255]))
+        peer.send(2, marker)
+        lines = d.wait_lines('events', lambda ls: any('203.0.113.255' in x for x in ls), timeout=60)
+        rest = peer.drain(quiet=0.2, limit=2)
+        if any(t == 3 for t, _ in rest):
+            n = [b for t, b in rest if t == 3][0]
+            res.violation(f'C02/daemon:refuses-wellformed:{n[0]}/{n[1]}', f'the daemon answered a well-formed UPDATE stream with NOTIFICATION {n[0]}/{n[1]} {bytes(n[2:])[:80]!r}', {'session': sk['name'], 'bodies': [b.hex() for b, _ in sent][-5:]}, 'daemon')
+            return res
+    except daemon.Inconclusive as e:
+        notif = [b for t, b in getattr(locals().get('peer'), 'rx', []) if t == 3]
+        if notif:
+            n = notif[0]
+            res.violation(f'C02/daemon:refuses-wellformed:{n[0]}/{n[1]}', f'the daemon answered a well-formed UPDATE stream with NOTIFICATION {n[0]}/{n[1]} {bytes(n[2:])[:80]!r}', {'session': sk['name'], 'bodies': [b.hex() for b, _ in sent][-5:]}, 'daemon')
+        else:
+            res.inconclusive.append('daemon: ' + str(e)[:400])
+        return res
+    finally:
+        try:
+            peer.close()
+        except Exception:  # noqa
+            pass
+        d.stop()
+    events = []
+    for ln in lines:
+        try:
+            ev = norm.strict_loads(ln)
+        except Exception as e:  # noqa
+            res.violation(f'C02/daemon:json-unparseable:{type(e).__name__}', f'a line the helper received does not parse: {ln[:200]}', {'session': sk['name'], 'line': ln[:1000]}, 'daemon')
+            return res
+        if ev.get('type') == 'update':
+            events.append(ln)
+    events = events[:-1]  # the marker
+    if len(events) != len(sent):
+        res.violation('C02/daemon:event-count:' + ('dropped' if len(events) < len(sent) else 'invented'), f'{len(sent)} UPDATEs sent, {len(events)} update events reached the helper', {'session': sk['name'], 'bodies': [b.hex() for b, _ in sent], 'events': events[:50]}, 'daemon')
+        return res
+    for (body, intent), text in zip(sent, events):
+        kind = intent.get('kind') or ('eor' if intent['eor'] else '?')
+        nbucket = 'many' if len(intent['announce']) + len(intent['withdraw']) > 3 else 'few'
+        wit = {'session': sk['name'], 'body': body.hex(), 'intent': intent, 'level': 'daemon', 'compact': compact}
+        before = sum(v['count'] for v in res.violations)
+        judge(res, sk, sk.get('aigp'), intent, expected_from_intent(intent, recv_ap), text, wit, f'daemon:{sk["name"]}:{kind}', kind, nbucket)
+        if sum(v['count'] for v in res.violations) == before:
+            res.ok('daemon' + (':compact' if compact else ''))
+    return res
+
+
 def run_shard(desc):
+    if desc.get('daemon'):
+        return run_daemon(desc)
     from exabgp.bgp.message import Message, Notify
     from exabgp.reactor.api.response import Response
     from exabgp.reactor.peer.handlers import UpdateHandler
@@ -161,80 +326,7 @@ def run_shard(desc):
         except Exception as e:  # noqa
             res.violation(f'C02/decode-raises:{type(e).__name__}:{kind}', f'well-formed UPDATE raised {type(e).__name__}: {str(e)[:120]}', wit, cls)
             continue
-        try:
-            ev = norm.strict_loads(text)
-            obs = norm.update_observed(ev)
-        except Exception as e:  # noqa
-            key = 'C02/json-unparseable:eor' if intent['eor'] else f'C02/json-unparseable:{type(e).__name__}'
-            res.violation(key, f'JSON event does not parse: {type(e).__name__} {str(e)[:100]}', dict(wit, json=text[:600]), cls)
-            continue
-        wit['observed'] = {k: obs[k] for k in ('announce', 'withdraw', 'eor', 'attrs')}
-        wit['expected'] = exp
-        bad = False
-        if obs['eor'] != exp['eor']:
-            res.violation(f'C02/eor-family:{exp["eor"]}', f'End-of-RIB reported for {obs["eor"]}, sent for {exp["eor"]}', wit, cls)
-            continue
-        oa = [x[0] for x in obs['announce']]
-        ea = [x[0] for x in exp['announce']]
-        if oa != ea:
-            fam_obs = sorted({x[0] for x in oa})
-            fam_exp = sorted({x[0] for x in ea})
-            if fam_obs != fam_exp:
-                key = 'C02/announce-family'
-            elif len(oa) != len(ea):
-                key = 'C02/announce-count:' + ('dropped' if len(oa) < len(ea) else 'invented')
-            else:
-                diff = [i for i in range(len(oa)) if oa[i] != ea[i]]
-                fields = sorted({('prefix', 'path-id', 'labels', 'rd')[j - 1] for i in diff for j in range(1, 5) if oa[i][j] != ea[i][j]})
-                key = 'C02/announce-differs:' + '+'.join(fields) + f':safi{ea[diff[0]][0][1]}'
-            res.violation(key, 'announced set reported differs from what was sent', wit, cls)
-            bad = True
-        else:
-            for (n, nh), (_, hops) in zip(obs['announce'], exp['announce']):
-                if not nexthop_matches(nh, hops):
-                    res.violation(f'C02/nexthop:safi{n[0][1]}:{"ll" if len(hops) > 1 else "single"}', f'next hop reported {nh!r}, sent {hops}', wit, cls)
-                    bad = True
-                    break
-        if obs['withdraw'] != exp['withdraw']:
-            key = 'C02/withdraw-count' if len(obs['withdraw']) != len(exp['withdraw']) else 'C02/withdraw-differs'
-            res.violation(key, 'withdrawn set reported differs from what was sent', wit, cls)
-            bad = True
-        oattr = dict(obs['attrs'])
-        oattr.pop('next_hop', None)
-        eattr = dict(exp['attrs'])
-        # AIGP (RFC 7311): reported with its value on a session configured for it, removed everywhere else
-        if bool(neg.aigp) != bool(sk.get('aigp')):
-            res.inconclusive.append(f'session {sk["name"]}: negotiated aigp={neg.aigp}')
-            continue
-        if 'aigp' in oattr:
-            try:
-                oattr['aigp'] = int(str(oattr['aigp']), 0)
-            except ValueError:
-                pass
-        if (sk.get('aigp') or sk['ibgp']) and intent['attrs'] and 'aigp' in intent['attrs']:  # RFC 7311 3.1: enabled by default on IBGP
-            eattr['aigp'] = intent['attrs']['aigp']
-            res.count('aigp-compared:configured-session')
-        elif intent['attrs'] and 'aigp' in intent['attrs']:
-            res.count('aigp-compared:plain-session')
-        if not (intent['announce'] or intent['withdraw']):
-            eattr = oattr  # nothing to attach attributes to
-        if intent['withdraw'] and not intent['announce']:
-            eattr = oattr
-        if eattr.get('as_path') == [] and 'as_path' not in oattr:
-            oattr['as_path'] = []  # an empty AS_PATH is simply not rendered
-        for k in sorted(set(oattr) | set(eattr)):
-            if oattr.get(k) != eattr.get(k):
-                sub = ''
-                if k == 'as_path':
-                    sub = ':asn4' if sk['asn4'] else ':as4-merge'
-                res.violation(f'C02/attribute:{k}{sub}', f'attribute {k} reported {oattr.get(k)!r}, sent {eattr.get(k)!r}', wit, cls)
-                bad = True
-                break
-        if not bad:
-            res.ok(cls, (sk['name'], kind, tuple(sorted(eattr)), nbucket))
-            for k in eattr:
-                res.ok('attr:' + k)
-            res.sample({'session': sk['name'], 'kind': kind, 'announce': [str(x) for x in exp['announce'][:2]], 'attrs': sorted(eattr)}, limit=3)
+        judge(res, sk, neg.aigp, intent, exp, text, wit, cls, kind, nbucket)
 
     # ---- Adj-RIB-In over sequences
     for sk in kinds:
@@ -330,6 +422,7 @@ def run_shard(desc):
 
 REQUIRED_CLASSES = {
     'quick': ['attr:as_path', 'attr:communities', 'attr:med', 'attr:local_pref', 'attr:origin', 'attr:ext_communities', 'attr:large_communities', 'attr:cluster_list', 'attr:unknown', 'attr:aggregator']
-    + [f'ribin:{s["name"]}' for s in sessions()],
+    + [f'ribin:{s["name"]}' for s in sessions()]
+    + ['daemon'],
 }
 REQUIRED_CLASSES['thorough'] = REQUIRED_CLASSES['quick']
